@@ -91,7 +91,7 @@ func configsBase(tier string) []xplore.Config {
 	out = append(out, xplore.Config{Name: "a: reconnect over scripted client: 40 failed attempts in a row (long outage), Close afterwards", Bound: 0, Data: cfgData{part: "a", attempts: outage, closeAt: 99, longRun: true}})
 	// the caller's context ends by itself (cancellation or deadline), Close only afterwards
 	for _, sc := range seqsOf([]string{"err", "nil", "n2err", "park", "parknil"}, maxLen) {
-		for _, ce := range []string{"cancel", "deadline"} {
+		for _, ce := range []string{"cancel", "deadline", "precancelled"} {
 			out = append(out, xplore.Config{Name: fmt.Sprintf("a: reconnect over scripted client attempts=%v context ends by %s, Close afterwards", sc, ce), Bound: bound - 1, Data: cfgData{part: "a", attempts: sc, closeAt: 99, ctxEnd: ce}})
 		}
 	}
@@ -419,6 +419,10 @@ func (harness) Run(cfg xplore.Config, ch vrt.Chooser, trace bool) (xplore.Outcom
 		switch d.ctxEnd {
 		case "cancel":
 			sctx, scancel = vcontext.WithCancel(vcontext.Background())
+		case "precancelled":
+			// the context is already over when Subscribe is called
+			sctx, scancel = vcontext.WithCancel(vcontext.Background())
+			scancel()
 		case "deadline":
 			sctx, scancel = vcontext.WithTimeout(vcontext.Background(), time.Hour)
 		}
@@ -481,6 +485,20 @@ func (harness) Run(cfg xplore.Config, ch vrt.Chooser, trace bool) (xplore.Outcom
 				vrt.Idle()
 			}
 			vrt.Idle()
+		}
+		// Close is idempotent: a second one, after everything settled, returns too
+		secondClosed := false
+		if subReturned && closeReturned {
+			vrt.GoNamed("second-close", func() { rc.Close(); secondClosed = true })
+			vrt.Idle()
+			for i := 0; i < 4 && vrt.ArmedTimers() > 0 && !secondClosed; i++ {
+				vrt.FireAny()
+				vrt.Idle()
+			}
+			if !secondClosed {
+				viol("second-close-hangs", "Subscribe and the first Close returned, but a second Close does not; parked: %v; trace: %s", vrt.ParkedInfo(), tr)
+				return
+			}
 		}
 		out.Obs = tr.String()
 		out.Nontrivial = true
